@@ -152,9 +152,16 @@ def run(ctx):
     # exchange-rate application: exact product with the stored rate, rounded once (Money.tla, big naturals)
     from checks import moneycheck
     moneycheck.judge(ctx, moneycheck.apply_cases(ctx, random.Random(ctx.seed)), 'rate-application')
+    # conversions by a dated money converter while its default date moves from one validity period to another:
+    # every lookup and every converter call after every step of every short history (RateTable.tla)
+    from checks import mconvcheck
+    mconvcheck.run_config(ctx, 'dated', ['y2020', 'y2021', 'sy2020'], ['x2', 'x4', 'y5', 'x2y5'], 3 if ctx.tier == 'quick' else 4)
 
 
 def replay(ctx, rp):
+    if rp['replay'].get('kind') == 'RateTable':
+        from checks import mconvcheck
+        return mconvcheck.replay(ctx, rp)
     if str(rp['replay'].get('kind')).startswith('bcalc'):
         from checks import bcalccheck
         return bcalccheck.replay(ctx, rp)
